@@ -68,3 +68,15 @@ Definition teq_program_okb (d : sdef) : bool :=
 
 Definition spine_head (c : src) : bool :=
   match c with SVec _ | SArray _ _ | SCompactT _ | STup _ => true | _ => false end.
+
+(** ** [registry_ofb] (Model/Program.v) compares fields and variants of the prelude entries up to
+    their docs; [RegistryOf] fixes them (no docs, as scale-info produces them) *)
+Definition field_nodocs (f : field) : bool := match f_docs f with [] => true | _ => false end.
+Definition def_nodocs (d : typedef) : bool :=
+  match d with
+  | TDComposite fs => forallb field_nodocs fs
+  | TDVariant vs => forallb (fun v => match v_docs v with [] => true | _ => false end && forallb field_nodocs (v_fields v)) vs
+  | _ => true
+  end.
+Definition prelude_nodocs_b (r : registry) : bool :=
+  forallb (fun e : N * ty => match t_path (snd e) with [_] => def_nodocs (t_def (snd e)) | _ => true end) r.
